@@ -360,6 +360,11 @@ impl<T: Qcow2IoOps> Qcow2Dev<T> {
                 let l2_cluster = l2_table.get_offset().unwrap() >> info.cluster_bits();
                 let was_new = self.cluster_is_new(l2_cluster).await;
 
+                // The slice is written as a whole: it may hold mappings of
+                // other clusters (made by the same or another write_at)
+                // whose new data clusters are not zeroed yet.
+                self.settle_new_clusters(&[l2_cluster]).await?;
+
                 // flush mapping table in-place update
                 self.flush_table(&*l2_table, 0, l2_table.byte_size())
                     .await?;
